@@ -217,6 +217,77 @@ fn gen_node(cx: &mut Ctx, ent: usize, depth: usize, with_subs: bool) -> usize {
     n
 }
 
+/// a grouped query at the root: count() / min() / max() over required Integer or String fields, grouped by 0-2 scalar
+/// fields without default, WHERE filters on fields, HAVING filters on aggregate aliases, order_by on group fields and
+/// aggregate aliases
+fn gen_aggregate(cx: &mut Ctx, ent: usize) {
+    let e = cx.s[ent].clone();
+    cx.lines.push(format!("q n=0 ent={}", ent));
+    let plain: Vec<usize> = e.iter().enumerate().skip(1)
+        .filter(|(_, f)| "ISB".contains(f.ty) && f.then.is_none() && f.md != 'd')
+        .map(|(j, _)| j).collect();
+    let mut keys: Vec<(String, usize)> = vec![];
+    let mut sel_lines: Vec<String> = vec![];
+    for &j in &plain {
+        if keys.len() < 2 && cx.g.chance(1, 2) {
+            sel_lines.push(format!("qs n=0 key=f{} f={}", j, j));
+            keys.push((format!("f{}", j), j));
+        }
+    }
+    let vals: Vec<usize> = e.iter().enumerate().filter(|(_, f)| (f.ty == 'I' || f.ty == 'S') && f.md == 'r' && !f.late).map(|(j, _)| j).collect();
+    let mut aggs: Vec<String> = vec![];
+    if cx.g.chance(4, 5) {
+        sel_lines.push("qg n=0 key=cnt fn=count f=0".to_string());
+        aggs.push("cnt".into());
+    }
+    for (k, fun) in ["min", "max", "max"].iter().enumerate() {
+        if cx.g.chance(1, 2) || (k == 2 && aggs.is_empty()) {
+            let j = vals[cx.g.below(vals.len())];
+            sel_lines.push(format!("qg n=0 key=g{} fn={} f={}", k, fun, j));
+            aggs.push(format!("g{}", k));
+        }
+    }
+    // the aggregates and the group fields in any order
+    for i in (1..sel_lines.len()).rev() {
+        let j = cx.g.below(i + 1);
+        sel_lines.swap(i, j);
+    }
+    cx.lines.extend(sel_lines);
+    let scalars: Vec<usize> = e.iter().enumerate().filter(|(_, f)| "ISB".contains(f.ty)).map(|(j, _)| j).collect();
+    let mut flines: Vec<String> = vec![];
+    for _ in 0..cx.g.weighted(&[3, 4, 2]) {
+        let j = scalars[cx.g.below(scalars.len())];
+        let f = &e[j];
+        let var = cx.g.chance(2, 5);
+        let nullable_now = f.md == 'n' && f.then.is_none();
+        let (op, v) = if nullable_now && cx.g.chance(1, 4) {
+            (["eq", "ne"][cx.g.below(2)], Val::Null)
+        } else {
+            (["eq", "ne", "lt", "le", "gt", "ge", "ne", "le", "ge"][cx.g.below(9)], data_val(cx.g, &cx.seen[ent][j], f.ty))
+        };
+        flines.push(format!("qf n=0 name=f{} sel=0 f={} op={} v={}{}", j, j, op, v.show(), if var { " var=1" } else { "" }));
+    }
+    for _ in 0..cx.g.weighted(&[3, 3, 1]) {
+        let a = aggs[cx.g.below(aggs.len())].clone();
+        let v = if a == "cnt" { Val::Int(cx.g.below(4) as i64) } else { Val::Int(INTS[cx.g.below(INTS.len())]) };   // aggregate aliases are typed Float by the parser: numbers only
+        flines.push(format!("qf n=0 name={} sel=1 f=0 op={} v={}{}", a, ["gt", "ge", "le", "ne", "eq", "lt"][cx.g.below(6)], v.show(), if cx.g.chance(1, 3) { " var=1" } else { "" }));
+    }
+    for i in (1..flines.len()).rev() {
+        let j = cx.g.below(i + 1);
+        flines.swap(i, j);
+    }
+    cx.lines.extend(flines);
+    for (name, j) in &keys {
+        if cx.g.chance(2, 3) {
+            cx.lines.push(format!("qo n=0 name={} sel=0 f={} dir={}", name, j, if cx.g.chance(1, 3) { "desc" } else { "asc" }));
+        }
+    }
+    if cx.g.chance(1, 2) {
+        let a = &aggs[cx.g.below(aggs.len())];
+        cx.lines.push(format!("qo n=0 name={} sel=1 f=0 dir={}", a, if cx.g.chance(1, 2) { "desc" } else { "asc" }));
+    }
+}
+
 pub fn gen(seed: u64, n_cases: usize, out: &str, tier: &str) {
     let mut g = Gen::new(seed ^ 0xC0551);
     let mut w = BufWriter::new(std::fs::File::create(out).unwrap());
@@ -314,8 +385,13 @@ pub fn gen(seed: u64, n_cases: usize, out: &str, tier: &str) {
         for _ in 0..(3 + g.below(3)) {
             let ent = g.below(s.len());
             let with_subs = g.chance(1, 2);
+            let aggregate = g.chance(1, 4);
             let mut cx = Ctx { g: &mut g, s: &s, seen: &seen, lines: vec![], next_node: 0, alias_n: 0 };
-            gen_node(&mut cx, ent, 0, with_subs);
+            if aggregate {
+                gen_aggregate(&mut cx, ent);
+            } else {
+                gen_node(&mut cx, ent, 0, with_subs);
+            }
             // node 0 must be declared first (it resets the node table): move the root's `q` line to the front
             let lines = cx.lines;
             let root_at = lines.iter().position(|l| l.starts_with("q n=0 ")).unwrap();
